@@ -288,8 +288,8 @@ pub fn run(args: &Args) {
     }
     let mut rng = Rng::new(args.seed);
     // corpus first: the shipped definition files
-    for f in ["/repo/resources/char.def", "/repo/sudachi/tests/resources/char.def"] {
-        if let Ok(text) = std::fs::read_to_string(f) {
+    for f in ["resources/char.def", "sudachi/tests/resources/char.def"] {
+        if let Ok(text) = std::fs::read_to_string(format!("{}/{}", repo(), f)) {
             let defs = parse_back(&text);
             let qs = queries(&defs, &mut rng, args.thorough());
             run_case(&mut sink, &defs, &text, &qs, false);
